@@ -228,6 +228,100 @@ def run_session(algo, prob, sched, seed, restart=False, perturb=None, feed=None,
   return out, states, None
 
 
+
+HOSTED = ['RANDOM_SEARCH', 'QUASI_RANDOM_SEARCH', 'GRID_SEARCH', 'SHUFFLED_GRID_SEARCH', 'NSGA2', 'EAGLE_STRATEGY', 'CMA_ES', 'SEEDED_DESIGNER_POLICY']
+
+
+class _SeededFactory:
+  """The repository's policy factory plus one more name: DesignerPolicy (use_seeding=True, the wrapper used for the GP
+  designers) around the random designer, so that the default/centre seeding path runs without a GP."""
+
+  def __init__(self):
+    from vizier._src.service import policy_factory
+    self._base = policy_factory.DefaultPolicyFactory()
+
+  def __call__(self, problem_statement, algorithm, policy_supporter, study_name):
+    if algorithm == 'SEEDED_DESIGNER_POLICY':
+      from vizier._src.algorithms.designers import random as rnd
+      from vizier._src.algorithms.policies import designer_policy as dp
+      return dp.DesignerPolicy(policy_supporter, lambda p: rnd.RandomDesigner(p.search_space, seed=7))
+    return self._base(problem_statement, algorithm, policy_supporter, study_name)
+
+
+def hosted_session(algorithm, prob, sched):
+  """The same kind of schedule, but through the servicer: real policy factory, Pythia, policies, supporter, converters.
+  Returns (suggestion records, refusal)."""
+  from vizier._src.service import pythia_service
+  from vizier._src.service import study_pb2
+  from vizier._src.service import vizier_service
+  from vizier._src.service import vizier_service_pb2 as vs
+  from vizier._src.pyvizier.oss import proto_converters as pcv
+  from vizier.service import pyvizier as svz
+  svc = vizier_service.VizierServicer(database_url=None)      # RAM; the default is a file next to the sources
+  svc.default_pythia_service = pythia_service.PythiaServicer(svc, policy_factory=_SeededFactory())
+  sc = svz.StudyConfig.from_problem(prob)
+  sc.algorithm = algorithm
+  try:
+    name = svc.CreateStudy(vs.CreateStudyRequest(parent='owners/h', study=study_pb2.Study(display_name='h', study_spec=sc.to_proto()))).name
+  except Exception as e:  # pylint: disable=broad-except
+    return [], 'refused-at-create:%s' % type(e).__name__
+  out = []
+  active = []
+  k = 0
+  for step in sched:
+    if step in ('S1', 'S2', 'S3'):
+      n = int(step[1])
+      try:
+        op = svc.SuggestTrials(vs.SuggestTrialsRequest(parent=name, suggestion_count=n, client_id='w%d' % len(out)))
+      except Exception as e:  # pylint: disable=broad-except
+        return out, 'refused-at-suggest:%s' % type(e).__name__
+      if op.HasField('error'):
+        return out, 'refused-at-suggest:operation-error:%s' % op.error.message[:80]
+      for t in vs.SuggestTrialsResponse.FromString(op.response.value).trials:
+        pt = pcv.TrialConverter.from_proto(t)
+        out.append([{'name': kk, 'v': fkey.value_record(v.value)} for kk, v in sorted(pt.parameters.items())])
+        active.append(t.name)
+    elif step in ('CF', 'CR', 'CI'):
+      for tname in (reversed(active) if step == 'CR' else active):
+        k += 1
+        r = vs.CompleteTrialRequest(name=tname)
+        if step == 'CI':
+          r.trial_infeasible = True
+          r.infeasible_reason = 'infeasible'
+        else:
+          for mi in prob.metric_information:
+            r.final_measurement.metrics.add(metric_id=mi.name, value=float((k * 7) % 5))
+        try:
+          svc.CompleteTrial(r)
+        except Exception as e:  # pylint: disable=broad-except
+          return out, 'refused-at-complete:%s' % type(e).__name__
+      active = []
+  return out, None
+
+
+def hosted_observations(ctx, scheds, rng, cat):
+  """Observations (same format as the designer sessions, run A only) of algorithms hosted in the servicer."""
+  obs, meta = [], []
+  names = sorted(cat)
+  for algorithm in HOSTED:
+    if algorithm == 'CMA_ES':
+      use = [s for s in names if s in ('neg', 'log', 'f32edge')]
+    else:
+      use = rng.sample(names, min(len(names), 6 if not ctx.thorough else len(names)))
+      for must in ('single', 'mixed'):        # singleton parameters take their own path in the policies
+        if must not in use:
+          use.append(must)
+    for shape in use:
+      prob = problem(shape, 2 if algorithm == 'NSGA2' else 1)
+      sched = rng.choice([s for s in scheds if sum(1 for x in s if x[0] == 'S') >= 2])
+      t0 = time.time()
+      a, refusal = hosted_session(algorithm, prob, sched)
+      obs.append({'space': fkey.space_record(prob.search_space), 'runs': {'A': a, 'B': a, 'C': a, 'D': a}, 'state': {'A': [], 'B': []},
+                  'extra': [], 'cmp': 'sug', 'restartable': False, 'randomised': False})
+      meta.append({'algorithm': 'hosted:' + algorithm, 'shape': shape, 'schedule': list(sched), 'seed': 0, 'refusal': refusal, 'secs': round(time.time() - t0, 2)})
+  return obs, meta
+
+
 def load_schedules(workdir, max_len, n, rng):
   cfg = os.path.join(workdir, 'DS_enum.cfg')
   tlc.write_cfg(cfg, constants={'Mode': 'enumerate', 'MaxLen': max_len, 'MaxBatch': 3}, constraints=['Dump'])
@@ -307,6 +401,9 @@ def collect(ctx, which):
           meta.append({'algorithm': aname, 'shape': shape, 'schedule': list(sched), 'seed': seed, 'refusal': refusal, 'secs': round(time.time() - t0, 2)})
     # default / centre seeding (C03)
     if which == 'C03':
+      ho, hm = hosted_observations(ctx, scheds, rng, cat)
+      obs += ho
+      meta += hm
       from vizier._src.pythia import suggest_default
       for shape in sorted(cat):
         prob = problem(shape)
